@@ -298,3 +298,21 @@ check(
     "DESIGN.md section 3 C12",
     "gridlab",
 )
+
+ENGINES[0]["serves_properties"].append("C14")
+ENGINES[-1 if ENGINES[-1]["name"] == "gridlab" else 2]["serves_properties"].append("C14")
+check(
+    "C14",
+    "exploration",
+    "(a) generated grids are produced twice in fresh processes and compared bit for bit; (b) Hypothesis over all subsets "
+    "of the sign/scale/profile options checks that constructing a TokamakEquilibrium leaves the caller's arrays, wall and "
+    "settings byte-identical and that a second build from the same objects is identical; (c) a Hypothesis "
+    "RuleBasedStateMachine generates histories of circular and tokamak constructions in one interpreter after which a "
+    "probe grid must have the fingerprint computed in a fresh interpreter; (d) geqdsk + yaml -> hypnotoad-geqdsk -> "
+    "hypnotoad-recreate-inputs (byte-identical geqdsk text, safe-loadable YAML containing every option) -> "
+    "hypnotoad-geqdsk again -> bit-identical grid.",
+    "Only grid_id and version/provenance strings may differ. Histories are bounded (<= 6 steps).",
+    "Hypothesis PBT + stateful (RuleBasedStateMachine) history generation + round-trip / differential oracles",
+    "DESIGN.md section 3 C14",
+    "unitlab",
+)
